@@ -19,6 +19,9 @@ use std::time::{Duration, Instant};
 static CASE_NO: std::sync::atomic::AtomicU64 = std::sync::atomic::AtomicU64::new(0);
 /// 1 while the parse entry points are being pre-run for a parse-side property other than C01 (a panic or hang there is C01's business)
 pub static IN_PARSE_PRECHECK: std::sync::atomic::AtomicU64 = std::sync::atomic::AtomicU64::new(0);
+/// API route used by `cfg::with_writer`: 0 = borrowed variants of every API, 1 = owned variants (reason_owned, add_item_owned,
+/// native_data_owned, builder_owned). The builder-side oracles run every configuration through both.
+pub static ROUTE: std::sync::atomic::AtomicU64 = std::sync::atomic::AtomicU64::new(0);
 
 pub struct Rng(pub u64);
 impl Rng {
